@@ -362,7 +362,9 @@ impl<'a> Cow<'a, HashMap<CowStr, Value>> {
 #[verifier::external_body] pub struct ResponseCookies { _p: u8 }
 #[verifier::external_body] pub struct Processor { _p: u8 }
 pub uninterp spec fn cookies_view(c: &ResponseCookies) -> Seq<ResponseCookie<'static>>;
-/// biscotti::Processor: whether the crypto rules will encrypt / sign a cookie is a pure function of its name
+/// biscotti::Processor: whether the crypto rules will encrypt / sign a cookie is a pure function of its name.
+/// (That the cookie of that name then really IS encrypted / signed is outside this unit; the pipeline witness probes it and
+/// found it false for names that percent-encoding changes — biscotti 0.4.3, see known_findings.json.)
 pub uninterp spec fn will_encrypt(p: &Processor, name: Seq<char>) -> bool;
 pub uninterp spec fn will_sign(p: &Processor, name: Seq<char>) -> bool;
 impl<'a> ResponseCookie<'a> {
